@@ -68,9 +68,9 @@ class LabObjPlain(ParameterObject):
 class LabMem(InMemoryData):
     """in-memory result carrying a payload"""
 
-    def __init__(self, payload=None):
+    def __init__(self):
         super().__init__()
-        self.payload = payload
+        self.payload = None
 
 
 # ---- canonical forms ---------------------------------------------------------------------------------------------
@@ -284,7 +284,9 @@ def lab_run(task, spec, args):
             data.finished()
         return data
     if kind == 'memory':
-        return LabMem(value)
+        m = LabMem()
+        m.payload = value
+        return m
     return value
 
 
